@@ -209,8 +209,18 @@ package fastcgi
 //@   at call (*FCGIClient).Request assert [body_passed_on_untouched] arg2 == body
 //@   modifies Response.Header, Response.StatusCode, Response.Status, Response.TransferEncoding, Response.ContentLength, Response.Body, MV:map[string]string, MD:map[string]string, E:uint8, header.Version, header.Type, header.ID, header.ContentLength, header.PaddingLength
 //@   ensures [usable_response] usable(resp, err)
+//@ // C13 "response headers relayed": every value of every field the responder sent is ADDED under its field name, in the
+//@ // order received (Set would keep only the last Set-Cookie / Link line); nothing else edits the client's header here
+//@ extern (net/http.Header).Set
+//@   watch
+//@   requires [response_fields_are_added_not_replaced] false
+//@ extern (net/http.Header).Del
+//@   watch
+//@   requires [response_fields_are_added_not_replaced] false
 //@ func writeHeader
 //@   requires w != nil && r != nil && 100 <= r.StatusCode && r.StatusCode <= 999
+//@   at call (net/http.Header).Add before [each_value_under_its_own_field] arg1 == key && arg2 == val
+//@   at call (net/http.Header).Add cover [values_are_relayed] true
 
 //@ unit path_split frames=on props=C13,C19 nilchecks=on filter=`fastcgi\.Rule\)\.(splitPos|canSplit)$`
 //@ // the split position is an index into the ORIGINAL path at which a whole split string fits (also with case-insensitive
